@@ -20,6 +20,10 @@ decided by the *route* used to realise it in a goal:
   fa     the lit term pushed through findall/3 (ground terms; else = copy)
   asrt   the lit term pushed through assertz/1 + call + retract (ground terms
          and terms with variables alike; variables re-attached)
+  seg    every front run of >= 2 one-char atoms is a *segmented* string: the
+         first half built with partial_string/3, its tail bound to the literal
+         second half (string -> string continuation; comparing it with an
+         unsegmented string makes the latter continue at an unaligned offset)
   sfxK   every front run of one-char atoms is the K-th suffix of a longer
          string obtained by destructuring (a PStrLoc that points K bytes into
          a string: unaligned slice start)
@@ -215,7 +219,7 @@ def size(t):
 # ---------------------------------------------------------------------------
 # rendering
 
-ROUTES = ["lit", "dq", "univ", "func", "chars", "copy", "fa", "asrt", "sfx1", "sfx3", "sfx8"]
+ROUTES = ["lit", "dq", "univ", "func", "chars", "copy", "fa", "asrt", "seg", "sfx1", "sfx3", "sfx8"]
 
 
 class Ctx:
@@ -305,6 +309,14 @@ def _chars(t, ctx, pre, sfx=None):
         return _atomic(t, ctx, pre)
     if _is_cell(t):
         run, rest = char_run(t)
+        if run and sfx == "seg":
+            if len(run) < 2:
+                return _lit(t, ctx, pre)
+            k = len(run) // 2
+            v, tv = ctx.fresh(), ctx.fresh()
+            pre.append("partial_string(%s,%s,%s)" % (quote_string(run[:k]), v, tv))
+            pre.append("%s = %s" % (tv, _lit(mklist(list(run[k:]), rest), ctx, pre)))
+            return v
         if run:
             v = ctx.fresh()
             if sfx is None:
@@ -348,6 +360,8 @@ def render(t, route, ctx):
         return pre, _build(t, ctx, pre, route)
     if route == "chars":
         return pre, _chars(t, ctx, pre)
+    if route == "seg":
+        return pre, _chars(t, ctx, pre, sfx="seg")
     if route.startswith("sfx"):
         return pre, _chars(t, ctx, pre, sfx=int(route[3:]))
     if route in ("copy", "fa", "asrt"):
